@@ -358,7 +358,17 @@ def run(ctx):
             ctx.oracle_fail(c, r[0], r[1])
         ctx.count(("t", wire.enc_tree(t)), gen.tree_depth(t) >= 2, "dict", sample={"dict": t} if len(ctx.samples) < 5 else None)
     model_read(ctx, xmls[: ctx.n(300, 3000)])
-    model_write(ctx, dicts[: ctx.n(300, 3000)])
+    # populate on plain name-keyed dicts and on dicts as the reader produces them (numbered keys, _content, _attributes)
+    dictIO = native.dictio()
+    parsed = []
+    for xml in xmls[: ctx.n(200, 2000)]:
+        try:
+            d = gen.plain(dict(dictIO.XmlParser().parse_string(xml, dictIO.SDict())))
+            d.pop("_xmlOpts", None)
+            parsed.append(d)
+        except Exception:  # noqa: BLE001
+            pass
+    model_write(ctx, dicts[: ctx.n(300, 3000)] + parsed)
     for k in ("doc:none", "doc:default", "doc:prefixed", "dict"):
         if ctx.classes[k] == 0:
             raise RuntimeError("generator starved")
